@@ -281,8 +281,6 @@ def to_events(raw, keys, cols):
         e = dict(r)
         if e["op"] == "new":
             e["key"] = keys(e.pop("keyrepr"))
-            for k in ("dout", "newFiles", "modFiles"):
-                e.pop(k, None)
         elif e["op"] == "fix":
             rr = e.pop("resrepr")
             e["res"] = 0 if rr == "None" else cols(rr)
